@@ -166,9 +166,12 @@ func c08R2(c *Ctx, id string) {
 					neg = true
 					cond = u.X
 				}
-				call, ok := cond.(*ssa.Call)
-				if !ok || calleeOf(call).Name() != "bbolt.(*DB).hasSyncedFreelist" {
+				isTest, inv := syncedFreelistTest(cond)
+				if !isTest {
 					continue
+				}
+				if inv {
+					neg = !neg
 				}
 				synced, unsynced := b.Succs[0], b.Succs[1]
 				if neg {
@@ -445,4 +448,28 @@ func c08R4(c *Ctx, id string) {
 				"writeMeta returns this error after its writeAt succeeded; Commit then calls tx.rollback(): db.meta() already sees the new meta, freelist.Rollback discards pending[txid] and Reload of the NEW freelist page turns the pages this transaction freed into free pages — the next writer may overwrite pages an open reader or the previous meta still references")
 		}
 	})
+}
+
+
+// syncedFreelistTest: cond is the predicate "the file has a persisted free list" — a call of hasSyncedFreelist() or the
+// comparison it stands for, `<meta>.Freelist() != PgidNoFreelist` (inverted reports the `==` form).
+func syncedFreelistTest(cond ssa.Value) (isTest bool, inverted bool) {
+	switch x := cond.(type) {
+	case *ssa.Call:
+		return calleeOf(x).Name() == "bbolt.(*DB).hasSyncedFreelist", false
+	case *ssa.BinOp:
+		if x.Op != token.NEQ && x.Op != token.EQL {
+			return false, false
+		}
+		a, b := x.X, x.Y
+		if _, isC := constUint(a); isC {
+			a, b = b, a
+		}
+		v, isC := constUint(b)
+		call, isCall := a.(*ssa.Call)
+		if isC && v == ^uint64(0) && isCall && calleeOf(call).Name() == "common.(*Meta).Freelist" {
+			return true, x.Op == token.EQL
+		}
+	}
+	return false, false
 }
